@@ -1099,6 +1099,10 @@ func (s *Server) UpdateGCSafePoint(ctx context.Context, request *pdpb.UpdateGCSa
 		return &pdpb.UpdateGCSafePointResponse{Header: s.notBootstrappedHeader()}, nil
 	}
 
+	// Concurrent updates must not overwrite a larger safe point with a smaller one.
+	s.gcSafePointLock.Lock()
+	defer s.gcSafePointLock.Unlock()
+
 	oldSafePoint, err := s.storage.LoadGCSafePoint()
 	if err != nil {
 		return nil, err
